@@ -229,6 +229,12 @@ def generate(seed, tier, index=0):
         if ops[n].slow and rng.random() > sw["slow_weight"]:
             continue
         seq.append(n)
+    # faults without workload test nothing: make sure a carrier for every enabled specific fault kind is present
+    carriers = {"callback_raise": [n for n in names if ops[n].cb is not None],
+                "fork_fail": [n for n in names if ops[n].pool], "io_error": [n for n in names if ops[n].io]}
+    for kind in ("callback_raise", "fork_fail", "io_error"):
+        if kind in sw["faults"] and rng.random() < 0.7:
+            seq.insert(rng.randrange(max(1, len(seq) - 1)), rng.choice(carriers[kind]))
     if rng.random() < 0.3:
         rng.shuffle(seq)
     out = []
@@ -238,15 +244,15 @@ def generate(seed, tier, index=0):
         o = {"op": n}
         if spec.rand:
             o["rng_seed"] = rng.choice(RAND_SEEDS)
-        if sw["faults"] and nfaults < 2 and rng.random() < 0.3:
+        if sw["faults"] and nfaults < 2:
             kinds = []
-            if spec.cb is not None and "callback_raise" in sw["faults"]:
+            if spec.cb is not None and "callback_raise" in sw["faults"] and rng.random() < 0.6:
                 kinds.append("callback_raise")
-            if spec.pool and "fork_fail" in sw["faults"]:
-                kinds += ["fork_fail", "fork_fail"]
-            if spec.io and "io_error" in sw["faults"]:
-                kinds += ["io_error", "io_error"]
-            if "async_interrupt" in sw["faults"]:
+            if spec.pool and "fork_fail" in sw["faults"] and rng.random() < 0.6:
+                kinds.append("fork_fail")
+            if spec.io and "io_error" in sw["faults"] and rng.random() < 0.6:
+                kinds.append("io_error")
+            if not kinds and "async_interrupt" in sw["faults"] and rng.random() < 0.25:
                 kinds.append("async_interrupt")
             if kinds:
                 k = rng.choice(kinds)
